@@ -145,6 +145,8 @@ def gen_base(rng, tier: str, faulty: bool) -> dict:
     if path.startswith("tunnel") or path == "direct_tls":
         sc["seg"] = {"mode": "whole"}
         sc["connects"] = []
+    if rng.random() < 0.25:
+        sc["close_without_probe"] = True
     return sc
 
 
@@ -371,12 +373,17 @@ def run(sc: dict) -> Result:
                         res.bad("slot_lost@block", f"pool.pool.qsize()={qs}, maxsize={N_} at quiescence")
                 except Exception:
                     pass
+            skip_probe = bool(sc.get("close_without_probe"))
             before = set(s.sid for s in w.open_sockets())
+            if skip_probe:
+                # close the pool exactly as the history left it (placeholders and idle connections in whatever order they were
+                # returned): the probe below would first replace every placeholder by a live connection
+                res.probes["closed_without_probe"] += 1
             if len(before) > N_:
                 res.bad("socket_leak@quiescent", f"{len(before)} sockets open with every response disposed, maxsize {N_}")
             leases = []
             want = N_ if block else N_ + 1
-            for i in range(want):
+            for i in range(0 if skip_probe else want):
                 st, out = guarded("probe", lambda: cl.urlopen("GET", f"/probe{i}", preload_content=False, pool_timeout=0, retries=False, redirect=False))
                 if st == "ok":
                     leases.append(out)
@@ -387,7 +394,8 @@ def run(sc: dict) -> Result:
                         res.bad("probe_failed", f"{type(out).__name__}: {out}")
                     break
             else:
-                res.probes["probe_block" if block else "probe_nonblock"] += 1
+                if not skip_probe:
+                    res.probes["probe_block" if block else "probe_nonblock"] += 1
                 conns = [r.connection for r in leases]
                 if any(c is None for c in conns) or len(set(map(id, conns))) != len(conns):
                     res.bad("slot_dup@probe", "two leases returned the same connection object")
@@ -400,9 +408,9 @@ def run(sc: dict) -> Result:
                     res.bad("slot_dup@probe", "two leases share one socket")
                 open_now = set(s.sid for s in w.open_sockets())
                 orphans = open_now - set(socks)
-                if orphans:
+                if orphans and not skip_probe:
                     res.bad("socket_leak@probe", f"sockets {sorted(orphans)} are open but belong to no lease (opened before probe: {sorted(before & orphans)})")
-                if block:
+                if block and not skip_probe:
                     st, out = guarded("probe+1", lambda: cl.urlopen("GET", "/probe-extra", preload_content=False, pool_timeout=0, retries=False))
                     if st == "ok":
                         res.bad("slot_dup@block", f"lease {N_ + 1} succeeded on a block=True pool of maxsize {N_}")
@@ -411,7 +419,7 @@ def run(sc: dict) -> Result:
                         res.bad("probe_failed", f"extra lease: {type(out).__name__}: {out}")
             for r in leases:
                 guarded("probe-release", lambda: (r.read(), r.release_conn()))
-            if not block and len(leases) == want:
+            if not block and len(leases) == want and not skip_probe:
                 n_open = len(w.open_sockets())
                 if n_open != N_:
                     res.bad("slot_lost@nonblock" if n_open < N_ else "socket_leak@release", f"{n_open} sockets open after releasing {want} leases on a non-blocking pool of maxsize {N_}")
@@ -467,6 +475,10 @@ def shrinks(sc: dict):
             c = copy.deepcopy(sc)
             del c["ops"][i]
             yield c
+    if sc.get("close_without_probe") is False:
+        c = copy.deepcopy(sc)
+        del c["close_without_probe"]
+        yield c
     for key in ("step_faults", "dials", "exchanges", "connects"):
         for i in range(len(sc.get(key) or [])):
             c = copy.deepcopy(sc)
